@@ -122,19 +122,27 @@ def decPV (tok : String) : Option (Str × PV) :=
     pure (path, { path := path, value := if del then [] else value, deleted := del, index := idx })
   | _ => none
 
-/-- split trailing hints (`last=<hex>`, `pick=<name>`) off the argument list -/
-def splitHints (args : List String) : List String × Option Str × Option Str :=
-  args.foldl (fun (acc : List String × Option Str × Option Str) a =>
-    if a.startsWith "last=" then (acc.1, decStr (a.drop 5).toString, acc.2.2)
-    else if a.startsWith "pick=" then (acc.1, acc.2.1, some (a.drop 5).toString.toList)
-    else (acc.1 ++ [a], acc.2.1, acc.2.2)) ([], none, none)
+structure Hints where
+  last : Option Str := none
+  pick : Option Str := none
+  order : List Nat := []
+
+/-- split trailing hints (`last=<hex>`, `pick=<name>`, `rs=<i,j,…>`) off the argument list -/
+def splitHints (args : List String) : List String × Hints :=
+  args.foldl (fun (acc : List String × Hints) a =>
+    if a.startsWith "last=" then (acc.1, { acc.2 with last := decStr (a.drop 5).toString })
+    else if a.startsWith "pick=" then (acc.1, { acc.2 with pick := some (a.drop 5).toString.toList })
+    else if a.startsWith "rs=" then (acc.1, { acc.2 with order := ((a.drop 3).toString.splitOn ",").filterMap String.toNat? })
+    else (acc.1 ++ [a], acc.2)) ([], {})
 
 def runOut (r : Sys × Out) (histBefore : Nat) : IO String := do
   wref.modify fun w => { w with sys := r.1 }
   render (fmtRes r.2) r.2.reqs (r.1.hist.drop histBefore)
 
 def handleIO (op : String) (args0 : List String) : IO (Option String) := do
-  let (args, last, pick) := splitHints args0
+  let (args, hints) := splitHints args0
+  let last := hints.last
+  let pick := hints.pick
   let w ← wref.get
   if op != "init" && !w.started then return none
   let s := w.sys
@@ -169,7 +177,7 @@ def handleIO (op : String) (args0 : List String) : IO (Option String) := do
     match decInj plan with
     | some inj =>
       if (ansOfName ans.toList).isNone then return none
-      return some (← runOut (stepCfg s ans.toList inj last) s.hist.length)
+      return some (← runOut (stepCfg s ans.toList inj last hints.order) s.hist.length)
     | none => return none
   | "mast", [plan] =>
     match decInj plan with
